@@ -80,6 +80,9 @@ class StrlCheck:
                     samples.append({"rejected": msg[:200], "tree": parts})
             if r["nsol"] > 0 and r.get("ref", 0) and r.get("ref", 0) > 0 and len(s["nodes"]) >= 4:
                 nontrivial.add(case_hash(gen.to_text(s)))
+            # a capacity overflow between leaves that a LessThan should have ordered: with the purge pass the capacity row
+            # is dropped on the strength of that LessThan, so an order violation (known finding below) also shows as an overflow
+            f["order_violation_in_same_tree"] = any(k == "lessthan_order_violated" for k, _ in r["violations"])
             seen = set()
             for kind, detail in r["violations"]:
                 if kind in seen:
